@@ -74,7 +74,9 @@ class StoreRun:
             raise vlib.Undecided("StoreMC[%s] emitted no scenarios" % self.name)
         # promise after every emitted prefix
         mids = {}
+        byk = {}
         for sc in scns:
+            byk[(len(sc["steps"]), key_of(sc["steps"]))] = sc
             mids[(len(sc["steps"]), key_of(sc["steps"]))] = dict(out=sc["out"], allowed=sc["allowed"], abs=sc["abs"], pvok=sc.get("pvok", True))
         todo = [sc for sc in scns if not sc.get("_unselected")]
         total = len(todo)
@@ -130,9 +132,22 @@ class StoreRun:
                         cov["samples"][j] = smp
 
         variants = []
+        chosen = set(id(sc) for sc in todo)
 
         def on_result_collect(req, r):
             on_result(req, r)
+            # a sampled path whose PREFIX already disagrees with the promise cannot be judged; the scenario that ends at
+            # that prefix is the one to judge: make sure it is replayed even if the sample left it out
+            if (r.get("diverged") or "").startswith("prefix already failed") and not req.get("_variant"):
+                for n in range(1, len(req["steps"])):
+                    psc = byk.get((n, key_of(req["steps"][:n])))
+                    if psc is not None and id(psc) not in chosen and not psc.get("_unselected"):
+                        chosen.add(id(psc))
+                        steps = psc["steps"]
+                        psc["mid"] = {str(k): mids[(k, key_of(steps[:k]))] for k in range(1, len(steps)) if (k, key_of(steps[:k])) in mids}
+                        psc["caps"], psc["probes"], psc["cache"], psc["_variant"] = caps, self.probes, self.cache, True
+                        variants.append(psc)
+                        st["prefixes_added_after_divergence"] = st.get("prefixes_added_after_divergence", 0) + 1
             # the real flush wrote pages the specification's flush did not (drift): the property quantifies over every
             # subset of the pages the REAL flush writes, so those subsets are explored too (same promise)
             for idx, extra in (r.get("extra") or {}).items():
